@@ -111,8 +111,19 @@ func VerifC01_ConcurrentCalls() {
 	var hmu sync.Mutex
 	var args []string
 	h := &verifPingHandler{}
-	h.outcome = func(a string) (string, error) { return "re:" + a, nil }
-	h.onCall = nil
+	type seen struct{ cid, who, arg string }
+	var cur seen
+	var recs []seen
+	h.onCall = func(c FContext) {
+		// both reads are thread-local; the record is published after the last scheduling point
+		cid := c.CorrelationID()
+		who, _ := c.RequestHeader("who")
+		cur = seen{cid: cid, who: who}
+	}
+	h.outcome = func(a string) (string, error) {
+		recs = append(recs, seen{cur.cid, cur.who, a})
+		return "re:" + a, nil
+	}
 	proc := verifPingProcessor(h, func(next InvocationHandler) InvocationHandler { return next })
 	_ = hmu
 	client := NewFStandardClient(NewFServiceProvider(&verifSlowLoop{proc: proc, pf: pf}, pf))
@@ -127,7 +138,9 @@ func VerifC01_ConcurrentCalls() {
 		a := a
 		go func() {
 			r := &verifPingResult{}
-			err := client.Call(NewFContext("cid-"+a), "ping", &verifMsg{a: a, b: "y", c: "z"}, r)
+			fc := NewFContext("cid-" + a)
+			fc.AddRequestHeader("who", a)
+			err := client.Call(fc, "ping", &verifMsg{a: a, b: "y", c: "z"}, r)
 			g := ""
 			if r.success != nil {
 				g = *r.success
@@ -141,6 +154,9 @@ func VerifC01_ConcurrentCalls() {
 	}
 	args = h.args
 	verifAssert(len(args) == 2 && args[0] != args[1], "the handler ran once per request, with each argument once")
+	for _, r := range recs {
+		verifAssert(r.cid == "cid-"+r.arg && r.who == r.arg, "each handler invocation sees the correlation id and the request header of the call that carries its argument")
+	}
 	verifReach("end")
 }
 
